@@ -31,7 +31,7 @@ class H2CProtocolRequiredError(Exception):
         headers = [(b":method", request.method), (b":path", request.target)]
         for name, value in request.headers:
             if name.lower() == b"http2-settings":
-                settings = value.decode()
+                settings = value.decode("latin1")
             elif name.lower() == b"host":
                 headers.append((b":authority", value))
             headers.append((name, value))
